@@ -26,6 +26,15 @@ CAUGHT = {
  "C16c": "C16 `TV_Locations`", "C17c": "C17 `TV_Snippet` (marker column of the definition window)",
  "C19c": "C19 `TV_Robotics` (`wrong-value` on generated sexagesimal literals with fractions of up to 26 digits, added for it)",
  "C20c": "C20 `TV_Emitter` on the deep-chain family `Emitter!DeepSet` and random chains of depth 4-20, with indent_step 8 (added for it)",
+ "C03c": "C03 `TR_MapAccess` (a logged `yield` step whose seen-set size is not the machine's) and `TV_MapAccess` under LastWins",
+ "C04c": "C04 `TV_MapAccess` on the discarding targets (IgnoredAny / a struct that knows none of the keys, added for it); also C05 (`NoDupBelow`)",
+ "C05c": "C05 `TV_TypedCursor` (a sequence accepted in a struct position)", "C06c": "C06 `TV_Scalars` (leading-dot floats under no_schema)",
+ "C07c": "C07 `TV_Budget`: per-document verdicts now judge every document on its own, also after a rejected one (`rejected-within-limits`, changed for it)",
+ "C08c": "C08 `TV_Bounds` (replay beyond max_total_replayed_events accepted)",
+ "C09c": "C09 `TV_ReaderInput` on the corpus documents with an explicit `...` followed by unscannable text (added for it)",
+ "C10c": "C10 `TV_ReaderInput` kind `enc`: the cap against UTF-8-with-BOM and UTF-16 inputs (`cap-ignored`, `value-from-truncated-input`; added for it)",
+ "C11c": "not a violation under the property as stated: it changes whether iteration goes on after an unknown-alias error, which the crate itself classifies as a scan error; `Stream!IterAdmissible` admits both (see 0.5 note)",
+ "C18c": "C18 `TV_PathMap` on documents whose Outer mapping takes whole nested values from a `<<` base (added for it)",
  "C16a": "C16 `TV_Locations` (`merged-entry-not-attributed-to-its-merge`)", "C17a": "C17 `TV_Snippet` (`ring` family)",
  "C18a": "C18 `TV_PathMap` through the Display channels", "C19a": "C19 `TV_Robotics` (`wrong-value`)", "C20a": "C20 `TV_Emitter`",
 }
